@@ -1,16 +1,109 @@
-"""Generic / prelude layer drivers (filled in progressively)."""
+"""Upper-layer (generic / prelude) clauses of the core properties C01-C09: which jobs each property adds on top of its core-layer queries."""
+from z3 import *
+from .upperprops import *
+
+
+def job_builder_dataflow(ses, proto, prelude):
+    """build / try_encrypt / try_sign: the caller's key, the builder's footer and implicit assertion reach the matching core entry point unchanged,
+    the payload is the serialised claims, and the core's token is what is returned"""
+    from .props import c13
+    w = world(); ex = upper_executor(w); sb = SymBuilder(w); p = PROTOCOLS[proto]
+    vt = w.type_text(proto); akind = 'some' if p['assertion'] else 'none'
+    meth = 'build' if prelude else ('try_encrypt' if p['p'] == 'Local' else 'try_sign'); file = PB if prelude else GB
+    fs = [g for g in w.fns if g.file == file and g.method == meth and g.impl and vt[0].split('::')[-1] in g.impl[1] and vt[1].split('::')[-1] in g.impl[1]]
+    if len(fs) != 1: raise Unsupported('%s builder %s for %s: %d bodies' % ('prelude' if prelude else 'generic', meth, proto, len(fs)))
+    Kb = Const('K', Bytes)
+    key = sym_key_value(w, proto, Kb) if p['p'] == 'Local' else w.mk('PasetoAsymmetricPrivateKey', version=PHANTOM, purpose=PHANTOM, key=Kb)
+    tag = '%s %s::%s' % (proto, 'PasetoBuilder' if prelude else 'GenericBuilder', meth); n_ok = 0
+    for fk, ak in (('some', akind), ('none', 'none')):
+        st = new_state([Not(sb.DUP)] if prelude else []); cell = st.new_cell(sb.value(fk, ak) if prelude else sb.generic_value(fk, ak))
+        for s2, r in ex.run(fs[0], [('ref', cell, ()), ('ref', st.new_cell(key), ())], st):
+            if isinstance(r, Panic):
+                if upper_obligation(ses, '%s: no panic (%s)' % (tag, r.msg[:50]), list(s2.pc)): ses.violation(tag + ' panics: ' + r.msg, {}, {'kind': 'c13', 'proto': proto})
+                continue
+            core = [e for e in s2.log if e[0] == 'core_build']
+            if not is_ok(r): continue
+            n_ok += 1
+            if len(core) != 1: ses.violation('%s: Ok after %d core calls' % (tag, len(core)), {}, {'kind': 'c13', 'proto': proto}); continue
+            c = core[0]
+            wantF = sb.F if fk == 'some' else StringVal(''); wantA = sb.A if (ak == 'some') else StringVal('')
+            if upper_obligation(ses, '%s (footer=%s, assertion=%s): key, footer and implicit assertion reach the %s core call unchanged' % (tag, fk, ak, proto),
+                                list(s2.pc) + [Not(And(BoolVal(c[1] == proto), c[2] == Kb, c[5] == wantF, c[6] == wantA))]):
+                ses.violation('%s: the core is called with another key / footer / assertion / protocol than the builder holds' % tag, {}, {'kind': 'c13', 'proto': proto})
+            if not (is_expr(r[3][0]) and r[3][0].eq(c[7])): ses.violation('%s: the returned token is not the core\'s token' % tag, {}, {'kind': 'c13', 'proto': proto})
+    if n_ok == 0: ses.undecided.append(tag + ': no Ok path')
+    ses.absorb(ex)
+
+
+def job_setters(ses):
+    """set_footer / set_implicit_assertion of the four upper-layer types store exactly the value given (any value, including the empty string) and nothing else changes"""
+    w = world(); ex = upper_executor(w)
+    x = String('new_value'); n = 0
+    for owner, file, prelude in (('GenericBuilder', GB, False), ('PasetoBuilder', PB, True), ('GenericParser', GP, False), ('PasetoParser', PP, True)):
+        for meth, arg in (('set_footer', adt('Footer', None, x)), ('set_implicit_assertion', adt('ImplicitAssertion', None, x))):
+            fs = [g for g in w.fns if g.file == file and g.method == meth and '{closure' not in g.name]
+            if len(fs) != 1: ses.undecided.append('%s::%s: %d bodies' % (owner, meth, len(fs))); continue
+            builder = 'Builder' in owner
+            sym = SymBuilder(w) if builder else SymParser(w, 1, 1)
+            st = new_state([] if builder else sym.assume)
+            val = (sym.value() if prelude else sym.generic_value()) if builder else (sym.prelude_value() if prelude else sym.value())
+            cell = st.new_cell(val)
+            for s2, r in ex.run(fs[0], [('ref', cell, ()), arg], st, subst={'Version': 'v4::V4', 'Purpose': 'local::Local'}):
+                if isinstance(r, Panic): ses.violation('%s::%s panics' % (owner, meth), {}, None); continue
+                n += 1
+                v = s2.store[cell]
+                if prelude: v = dict(zip(w.fields(owner), v[3]))['builder' if builder else 'parser']
+                g = dict(zip(w.fields('GenericBuilder' if builder else 'GenericParser'), v[3]))
+                fld = g['footer' if meth == 'set_footer' else 'implicit_assertion']
+                if builder: got_ok = opt_eq(fld, some(arg))
+                else: got_ok = as_str_field(fld) == x
+                other = g['implicit_assertion' if meth == 'set_footer' else 'footer']
+                if builder: other_ok = opt_eq(other, assertion_opt(sym.A) if meth == 'set_footer' else footer_opt(sym.F))
+                else: other_ok = as_str_field(other) == (sym.A if meth == 'set_footer' else sym.F)
+                rec = upper_obligation(ses, '%s::%s(x) stores x (for every x, including "") and leaves the other setting alone' % (owner, meth), list(s2.pc) + [Not(And(got_ok, other_ok))], values=[x])
+                if rec: ses.violation('%s::%s does not store the value it is given (value %r)' % (owner, meth, fmt_model(['x'], rec).get('x')), fmt_model(['value'], rec), {'kind': 'setter', 'owner': owner, 'method': meth})
+    if n == 0: ses.undecided.append('setters: nothing executed')
+    ses.absorb(ex)
+
+
+def _protos(protos): return list(protos)
+
 
 def roundtrip_jobs(protos, tier):
-    return []
+    from .props import c14, c13, c15
+    js = [(c14.job_end_to_end, (p,)) for p in protos] + [(job_builder_dataflow, (p, pre)) for p in protos for pre in (False, True)]
+    js += [(c15.job_parse, (p, pre, ('c15',))) for p in protos for pre in (False, True)] + [(job_setters, ())]
+    js += [(c13.job_build, (p,)) for p in protos]          # build() leaves claims / footer / assertion untouched: the n-th token of a builder round-trips like the first
+    return js
+
 
 def panic_jobs(tier):
-    return []
+    from .props import c15, c11
+    js = [(c15.job_verify_claims, (n, m, ('c15',))) for n, m in ((0, 0), (1, 1), (2, 2))]
+    js += [(c15.job_parse, (p, pre, ('c15',))) for p in PROTOCOLS for pre in (False, True)]
+    js += [(c11.job_default_validators, (k,)) for k in ('exp', 'nbf')]
+    return js
+
 
 def tamper_jobs(tier):
-    return []
+    from .props import c15
+    return [(c15.job_parse, (p, pre, ('c16',))) for p in PROTOCOLS for pre in (False, True)]
 
-def key_jobs(tier): return []
-def footer_jobs(tier): return []
-def assertion_jobs(tier): return []
-def confusion_jobs(tier): return []
+
+def key_jobs(tier):
+    from .props import c15
+    return [(c15.job_parse, (p, pre, ('c15',))) for p in PROTOCOLS for pre in (False, True)] + [(job_builder_dataflow, (p, pre)) for p in PROTOCOLS for pre in (False, True)]
+
+
+def footer_jobs(tier):
+    from .props import c13
+    return key_jobs(tier) + [(job_setters, ())] + [(c13.job_build, (p,)) for p in PROTOCOLS]
+def assertion_jobs(tier):
+    from .props import c15
+    ps = [p for p in PROTOCOLS if PROTOCOLS[p]['assertion']]
+    from .props import c13
+    return [(c15.job_parse, (p, pre, ('c15',))) for p in ps for pre in (False, True)] + [(job_builder_dataflow, (p, pre)) for p in ps for pre in (False, True)] + [(job_setters, ())] + [(c13.job_build, (p,)) for p in ps]
+def confusion_jobs(tier):
+    from .props import c15
+    return [(c15.job_parse, (p, pre, ('c15',))) for p in PROTOCOLS for pre in (False, True)]
 def spec_jobs(tier): return []
